@@ -38,7 +38,7 @@ CHECKS = {
          'IsListing / RestoreApply define the allowed listings and the restored set; TLC prints every allowed (listing, post-state) for a (state, operation) and the observation must be one of them; scope is tested at component boundaries with prefix-sibling names.', '5 C13'),
  'C14': ('cmdspec', 'TLC action property NoConsentNoChange + dry-run / consent transition tests',
          'The dry run must leave the projection unchanged and print exactly the set the specification removes without --dry-run; negative replies (pool incl. empty and end of input, pipe and pty) must change nothing. One known finding (printed path of an absent payload).', '5 C14'),
- 'C15': ('opspec', 'TLC on PurgeOps.tla (crash + re-run) + kill of the real restore / empty / rm before every operation, judged by TLC (PurgeTrace) + whole runs validated by TLC as behaviours of PurgeOps (PurgeOpsTrace)',
+ 'C15': ('opspec', 'TLC on PurgeOps.tla (crash + re-run) + kill of the real restore / empty / rm before every operation, judged by TLC (PurgeTrace) + whole runs validated by TLC as behaviours of PurgeOps (PurgeOpsTrace); the safety invariants also follow from an inductive invariant discharged by Apalache',
          'InfoLast, RestoreNeverLoses, FrameOK, DoneOK and RerunCompletes are checked by TLC on PurgeOps.tla including crashes with re-runs; the real commands are killed before each of their operations, TLC evaluates the invariants on each post-kill state, the command is run again and the completed purge is checked; the sequence of on-disk states after every single operation of an uninterrupted run must be a behaviour of PurgeOps.tla (payload before info, copy before delete).', '5 C15'),
  'C16': ('cmdspec', 'TLC action property PutIndependence + argument-list transition tests',
          'PutIndependence is checked by TLC; lists of 2 and 3 arguments in every order are run; the state must be PutFold\'s, exit 0 iff no failure, stderr names each failed argument.', '5 C16'),
